@@ -41,6 +41,12 @@ LettersLists == {El("H", 1, 1), El("P", 1, 1), El("P", 2, 1), El("L", 3, 3), El(
 LettersBound == {El("H", 1, 1), El("P", 3, 1), El("L", 3, 3), El("L", 106, 1), NP}
                 \cup {El("P", c, 1) : c \in {5, 6, 7, 8, 9, 10, 11}}
 
+\* documents that PDF layout heuristics can carry: one-line headings of two sizes
+\* (18 pt / 14 pt), paragraphs of a - 20 body lines (3 or 6), a list of three
+\* bulleted or numbered lines, the page break.  The harness renders them with
+\* positioned text and reads them back through tabula.Open(pdf).
+LettersPdf == {El("H", 1, 1), El("H", 2, 1), El("P", 23, 1), El("P", 26, 1), El("L", 3, 3), NP}
+
 \* a document the layout-based rag.Chunker can be given without loss: only
 \* headings, paragraphs and lists, and on every page headings first, then
 \* paragraphs, then lists (model.PageLayout keeps one list per kind)
